@@ -42,12 +42,14 @@ def cases(draw):
     fmt = spec["fmt"]
     if fmt["format"] == "fixed":
         fmt["line_delimiter"] = draw(st.sampled_from(["LF", "CR", "CRLF", "Any", "None"]))
-    if fmt["format"] == "delimited" and draw(st.booleans()):
-        # another dialect, and a free text field whose values contain every character the dialects treat specially
-        delimiter, quote, escape = draw(st.sampled_from(_DIALECTS))
-        if delimiter != "," and (fmt["decimal"] == delimiter or fmt["thousands"] == delimiter):
-            delimiter = "|"
-        fmt["item_delimiter"], fmt["quote_character"], fmt["escape_character"] = delimiter, quote, escape
+    if fmt["format"] == "delimited" and (fmt.get("item_delimiter") or draw(st.booleans())):
+        # another dialect (unless the spec already has one), and a free text field whose values contain every
+        # character the dialects treat specially
+        if not fmt.get("item_delimiter"):
+            delimiter, quote, escape = draw(st.sampled_from(_DIALECTS))
+            if delimiter != "," and (fmt["decimal"] == delimiter or fmt["thousands"] == delimiter):
+                delimiter = "|"
+            fmt["item_delimiter"], fmt["quote_character"], fmt["escape_character"] = delimiter, quote, escape
         spec["fields"].append({"name": "free_text9", "empty": True, "length": "", "length_items": None, "type": "Text",
                                "rule": "", "model": {}, "reject": [],
                                "accept": ["", "plain", "C:\\temp", "it's", 'say "hi"', "a;b", "a|b", "a,b", "\\", "'",
@@ -69,7 +71,11 @@ def cases(draw):
             victim = draw(st.integers(fmt.get("header", 0), len(rows))) if len(rows) > fmt.get("header", 0) else None
             if victim is not None and victim < len(rows):
                 rows[victim] = rows[victim] + ["x"] if draw(st.booleans()) or len(rows[victim]) < 2 else rows[victim][:-1]
-    return {"spec": spec, "rows": rows, "target": draw(st.sampled_from(["stream", "stream", "path"]))}
+    target = draw(st.sampled_from(["stream", "stream", "path"]))
+    if target == "path":
+        # the writer opens the file with the declared encoding: a row it cannot encode is a row it cannot write
+        fmt["encoding"] = draw(st.sampled_from(["utf-8", "utf-8", "ascii", "cp1252", "latin-1", "utf-16", "cp850"]))
+    return {"spec": spec, "rows": rows, "target": target}
 
 
 def _render(spec, accepted):
@@ -114,7 +120,7 @@ def check_case(sub, case):
         sub.fail("C14|cid-load|%s|%s" % (type(error).__name__, norm_message(error)), case, repr(error))
         return
     if case.get("target") == "path":
-        target = _FileTarget()
+        target = _FileTarget(fmt.get("encoding") or "utf-8")
     else:
         target = io.StringIO(newline="")
     try:
@@ -127,15 +133,16 @@ def check_case(sub, case):
 class _FileTarget(object):
     """The writer is given the path of a file; what it holds is judged once the writer has been closed."""
 
-    def __init__(self):
+    def __init__(self, encoding="utf-8"):
         self.folder = tempfile.mkdtemp(prefix="c14-")
         self.path = os.path.join(self.folder, "written.txt")
         self.closed = False
+        self.encoding = encoding
 
     def getvalue(self):
         if not self.closed:
             return None
-        with open(self.path, "r", encoding="utf-8", newline="") as f:
+        with open(self.path, "r", encoding=self.encoding, newline="") as f:
             return f.read()
 
     def remove(self):
@@ -177,6 +184,11 @@ def _check_with_target(sub, case, cid, target):
             else:
                 vetoed = state.check_row(row, written)
                 expectation = ("reject", "CheckError", None) if vetoed else ("accept",)
+        if expectation[0] in ("header", "accept") and isinstance(target, _FileTarget):
+            try:
+                "".join(row).encode(target.encoding)
+            except UnicodeError:
+                expectation = ("reject", "DataFormatError", None)
         # a caller that writes the same row again usually hands over the same list object: keep one object per
         # distinct row so that a writer which modifies its argument is noticed
         handed = row_objects.setdefault(tuple(row), list(row))
